@@ -21,7 +21,7 @@ from . import scenario as S
 
 LEVEL = 'exploration'
 LONG = 90 * 86400
-KEY_CYCLE = ['ecdsa_p256', 'ecdsa_p384', 'ed25519', 'rsa2048', 'ecdsa_p521', 'ed448']
+KEY_CYCLE = ['ecdsa_p256', 'ecdsa_p384', 'ed25519', 'rsa2048', 'rsa4096', 'rsa2048', 'ecdsa_p521', 'ed448']
 JWK_OF = {'ecdsa_p256': ('EC', 'P-256'), 'ecdsa_p384': ('EC', 'P-384'), 'ecdsa_p521': ('EC', 'P-521'), 'ed25519': ('OKP', 'Ed25519'),
           'ed448': ('OKP', 'Ed448'), 'rsa2048': ('RSA', None), 'rsa4096': ('RSA', None)}
 EPS = ['A', 'B', 'C']
@@ -41,7 +41,8 @@ def run_history(case):
     ca = C.MockCA(d + '/ca', plan)
     res = {'case': case, 'problems': [], 'renewals': 0, 'steps_done': 0, 'updates_seen': 0, 'key_changes_seen': 0, 'registrations_seen': 0}
     # model
-    cfg_state = {'contacts': ['a0@example.org'], 'key_type': KEY_CYCLE[0], 'eab': None}
+    key_pos = case.get('key_start', 0)
+    cfg_state = {'contacts': ['a0@example.org'], 'key_type': KEY_CYCLE[key_pos], 'eab': None}
     stored_key_type = None      # key type of the key the stored account currently holds
     key_gen = 0
     contact_gen = 0
@@ -76,6 +77,8 @@ def run_history(case):
         elif stored_key_type != cfg_state['key_type']:
             stored_key_type = cfg_state['key_type']
             key_gen += 1
+            return True
+        return False
 
     try:
         steps = [('renew-all',)] + list(case['steps']) + [('renew', e) for e in eps]
@@ -85,11 +88,13 @@ def run_history(case):
                 contact_gen += 1
                 cfg_state['contacts'] = ['a%d@example.org' % contact_gen] + (['extra%d@example.org' % contact_gen] if contact_gen % 2 else [])
             elif kind == 'key':
-                cfg_state['key_type'] = KEY_CYCLE[(KEY_CYCLE.index(cfg_state['key_type']) + 1) % len(KEY_CYCLE)]
+                key_pos = (key_pos + 1) % len(KEY_CYCLE)
+                cfg_state['key_type'] = KEY_CYCLE[key_pos]
             elif kind == 'both':
                 contact_gen += 1
                 cfg_state['contacts'] = ['a%d@example.org' % contact_gen]
-                cfg_state['key_type'] = KEY_CYCLE[(KEY_CYCLE.index(cfg_state['key_type']) + 1) % len(KEY_CYCLE)]
+                key_pos = (key_pos + 1) % len(KEY_CYCLE)
+                cfg_state['key_type'] = KEY_CYCLE[key_pos]
             elif kind == 'eab+':
                 eab_gen += 1
                 cfg_state['eab'] = 'kid-%d-%d' % (case['i'], eab_gen % 4)
@@ -119,11 +124,20 @@ def run_history(case):
                     at[e] = {'contacts': list(cfg_state['contacts']), 'key_gen': key_gen, 'eab': cfg_state['eab']}
             elif kind == 'restart':
                 write_cfg()
-                on_start()
-                # nothing is due: give the daemon time to load the configuration and the account (no dependency on log texts)
+                new_key = on_start()
+                # nothing is due: give the daemon time to load the configuration and the account (no dependency on log texts);
+                # when a new account key has to be generated (RSA-4096 takes seconds) wait until the account file was rewritten
                 import time as _t
                 t_start = _t.monotonic()
-                hooks, log, rc, to, err = daemon_run(lambda h, dm: _t.monotonic() - t_start > 1.2, 20)
+                accd = d + '/acc'
+                before = {f: os.stat(accd + '/' + f).st_mtime_ns for f in os.listdir(accd)} if os.path.isdir(accd) else {}
+
+                def settled(h, dm):
+                    if new_key:
+                        now = {f: os.stat(accd + '/' + f).st_mtime_ns for f in os.listdir(accd)}
+                        return now != before and _t.monotonic() - t_start > 0.5
+                    return _t.monotonic() - t_start > 1.2
+                hooks, log, rc, to, err = daemon_run(settled, 60)
                 if rc is not None:
                     res['problems'].append(('restart-failed', 'step %d: the daemon ended (status %s) on a plain restart: %s' % (si, rc, err[-200:])))
                     break
@@ -211,6 +225,9 @@ def run_history(case):
                     if rec['contacts'] != want_contacts:
                         res['problems'].append(('ca-contacts', '%s: the CA has contacts %s, the configuration says %s' % (tag, rec['contacts'], want_contacts)))
                     kty, crv = JWK_OF[cfg_state['key_type']]
+                    rsa_bits = {'rsa2048': 2048, 'rsa4096': 4096}.get(cfg_state['key_type'])
+                    if rsa_bits and rec['jwk'].get('kty') == 'RSA' and abs(len(rec['jwk'].get('n', '')) * 6 - rsa_bits) > 16:
+                        res['problems'].append(('ca-key', '%s: the CA has an RSA key of about %d bits on record, the configuration says %s' % (tag, len(rec['jwk'].get('n', '')) * 6, cfg_state['key_type'])))
                     if rec['jwk'].get('kty') != kty or (crv and rec['jwk'].get('crv') != crv):
                         res['problems'].append(('ca-key', '%s: the CA has a %s/%s key on record, the configuration says %s' % (tag, rec['jwk'].get('kty'), rec['jwk'].get('crv'), cfg_state['key_type'])))
                     created_here = any((x.get('extra') or {}).get('account_created') for x in regs)
@@ -377,6 +394,8 @@ MANDATORY = [
     [('eab+',), ('renew', 'A'), ('eab+',), ('key',)],
     [('contacts',), ('contacts',), ('renew', 'B'), ('contacts',)],
     [('key',), ('key',)],                                                        # key type changed and changed again without a restart in between
+    [('key',), ('renew', 'A'), ('restart',)],                                   # with key_start=3: rsa2048 -> rsa4096 (same signature algorithm)
+    [('key',), ('restart',), ('key',)],
     [('both',), ('restart',), ('forget', 'A')],
 ]
 
@@ -394,7 +413,9 @@ def gen(tier, r):
     cases = []
     for i, h in enumerate(hs):
         n_eps = 3 if any(len(s) > 1 and s[1] == 'C' for s in h) else 2
-        cases.append({'i': i, 'steps': h, 'n_eps': n_eps})
+        # the key cycle starts at rsa2048 for some histories, so that the next key edit is rsa2048 -> rsa4096 -> rsa2048
+        ks = 3 if (i in (len(MANDATORY) - 2, len(MANDATORY) - 1) or (i % 11 == 5 and any(s[0] in ('key', 'both') for s in h))) else 0
+        cases.append({'i': i, 'steps': h, 'n_eps': n_eps, 'key_start': ks})
     return cases
 
 
